@@ -393,7 +393,12 @@ func (p *queueProcessor) enqueueIfSlotAvailable(req *Request) bool {
 		return false
 	}
 
-	p.requestsWatcher.AddRequest(req)
+	if !p.requestsWatcher.TryAddRequest(req, p.maxQueueSize) {
+		// another arrival took the last slot in the meantime
+		p.logger.Debug().Str("requestID", req.GetID()).
+			Msg("Slot not available, dropping request")
+		return false
+	}
 
 	p.logger.Trace().Str("requestID", req.GetID()).Msg("Slot available, enqueuing")
 	if err := p.queue.Enqueue(req.GetID(), req.GetPriority()); err != nil {
